@@ -238,7 +238,7 @@ def run(prog, tier, extra=None):
     from ._include import include
     include(res, prog, tier, extra, "c01", ["C01.dup-scan", "C01.scan-exemptions"],
             "an input consumed twice inside one transaction or block pays out more than was consumed")
-    include(res, prog, tier, extra, "c13", ["C13.handled"],
+    include(res, prog, tier, extra, "c13", ["C13.handled", "C13.derive"],
             "every expiring output is either rebroadcast (fee booked) or its own amount is booked to the graveyard: nothing else conserves supply")
     res.explanation = (
         "Decides two necessary clauses of the second sentence of C02: the totals that the inflation test compares cannot wrap around (a wrapped output sum makes "
